@@ -101,6 +101,13 @@ TREE = {
     "root/%2e%2e": "root/%2e%2e literal\n",
     "root/f.txt?x": "root/f.txt?x (named by f.txt%3fx)\n",
     "root/a?": "root/a? (named by a%3f)\n",
+    # falsy-but-valid / sentinel-like / non-ASCII names and contents
+    "root/empty": "",
+    "root/empty.j2": "",
+    "root/0": "root/0\n",
+    "root/None": "root/None\n",
+    "root/\xe9": "root/e-acute (named by %c3%a9 and by the raw character)\n",
+    "root/\xe9.j2": "root/e-acute.j2\n",
 }
 
 HIST_OPS = ["R", "G", "A", "D", "W1", "W2"]
@@ -296,7 +303,15 @@ class C04(Check):
                 seen = set()
                 # witnesses of the known failure modes first (ENOTDIR, EISDIR, ENAMETOOLONG, traversal)
                 for pre in prefixes(cfg):
-                    for u in (pre, pre + "/f.txt", pre + "/nope", pre + "/sub/nope", pre + "/sub", pre + "/a/f.txt/a/a",
+                    for u in (pre + "/empty", pre + "/0", pre + "/None", pre + "/False", pre + "/%c3%a9", pre + "/\xe9",
+                              pre + "/%e9", pre + "/%C3%A9?x", pre + "/a/%c3%a9",
+                              # requests that do not match: shorter than the prefix, other segment, empty value ...
+                              "", "x", "/", pre[:-1], pre + "x", pre.rsplit("/", 1)[0], pre.rsplit("/", 1)[0] + "/",
+                              cfg["rpath"].replace("...", ""), cfg["rpath"].replace("...", "") + "/f.txt",
+                              cfg["rpath"].replace("...", "v").replace("x-", "y-") + "/f.txt",
+                              cfg["rpath"].replace("...", "v").replace("/q", "") + "/f.txt",
+                              cfg["rpath"].replace("...", "v").replace("/q", "/z") + "/f.txt",
+                              pre, pre + "/f.txt", pre + "/nope", pre + "/sub/nope", pre + "/sub", pre + "/a/f.txt/a/a",
                               pre + "/f.txt/a", pre + "/a/f.txt/..", pre + "/a", pre + "/a/", pre + "/../secret.txt",
                               pre + "/%2e%2e/secret.txt", pre + "/..%2fsecret.txt", pre + "/../root-evil/f.txt",
                               pre + "/a/../f.txt", pre + "/%2541", pre + "/f.txt%00", pre + "/a\\f.txt", pre + "/..a",
